@@ -117,7 +117,15 @@ def run_case(seed):
                 col = level.data[b][..., fixed]
                 level.data[b][..., fixed] = np.where(np.isfinite(col), np.tanh(col * 1e-3) * 1e-12, col)
     img, data_wf = nan_aware_image(pf, fixed)
-    path = core.scratch_dir(f"c03_{seed}")
+    # where the plotfile lives: names made of the characters of 'Level_', 'Cell_D_', 'Header', 'plt' ... (a prefix or suffix
+    # removed with a character SET eats into such names)
+    rp = random.Random(seed * 2741 + 23)
+    sub = rp.choice(['', '', 'Case_C/plt00010', 'CH4_Dilution/plt00010', 'Couette_plt00010', 'Level_set/Cell_study/plt_lev', 'tlp/plt00010ptl',
+                     'Header/Hplt'])
+    path = os.path.join(core.scratch_dir(f"c03_{seed}"), sub) if sub else core.scratch_dir(f"c03_{seed}")
+    count(f"plotfile directory={sub or 'plain'}")
+    if sub:
+        os.makedirs(os.path.dirname(path))
     diskimg.write_image(img, path)
     if rs.random() < 0.35:
         # level directories / binary files that are symbolic links to differently named targets
